@@ -50,7 +50,7 @@ def run(ctx):
             extra = []
             if core["k"] in ("Const", "OneOf", "NoneOf", "Enum", "FlagsEnum", "Mapping"):
                 extra = list(range(-2, 258)) if (i % 4 == 0 or not quick) else rng.sample(range(-2, 258), 30)
-                extra += [None, "", "one", "two | one", " a|b ", "a|zz", {"a": True, "_p": 1}, {"a": False}, b"A", b"MZ\x00", 0.0, True, False, []]
+                extra += [None, "", "one", "two | one", " a|b ", "a|zz", "a|a", "b|a|b", "a|c|b", "c|a", {"a": True, "_p": 1}, {"a": False}, b"A", b"MZ\x00", 0.0, True, False, []]
             if core["k"] == "Enum":
                 # a label object that came from another Enum (a str that carries the other mapping's integer): the label counts, not the integer
                 import construct as cs
